@@ -11,12 +11,17 @@ Lemma poisson_fisher_series x : 0 < x ->
   is_series (fun d : nat => poisson_pmf d x * poisson_hess (INR d) x) (Derive poisson_t x ^ 2).
 Proof.
   intros Hx. split; [|split].
-  - apply is_series_ext with (2 := pois_total x). intros d. reflexivity.
-  - apply is_series_lim_eq with (l := (- / x) * x + 1). field; lra.
-    apply is_series_ext with (2 := pois_affine x (- / x) 1).
-    intros d. unfold poisson_pmf, pois, poisson_grad. field; lra.
+  - apply is_series_ext_R with (2 := pois_total x). intros d. reflexivity.
+  - assert (E : (- / x) * x + 1 = 0) by (field; lra). apply (is_series_lim_eq _ _ _ E).
+    apply is_series_ext_R with (2 := pois_affine x (- / x) 1).
+    intros d. pose proof (fact_pos d). unfold poisson_pmf, pois, poisson_grad. field; split; lra.
   - rewrite poisson_pullback by auto.
-    apply is_series_lim_eq with (l := (/ x ^ 2) * x + 0). field; lra.
-    apply is_series_ext with (2 := pois_affine x (/ x ^ 2) 0).
-    intros d. unfold poisson_pmf, pois, poisson_hess. field; lra.
+    assert (E : (/ x ^ 2) * x + 0 = 1 / x) by (field; lra). apply (is_series_lim_eq _ _ _ E).
+    apply is_series_ext_R with (2 := pois_affine x (/ x ^ 2) 0).
+    intros d. pose proof (fact_pos d). unfold poisson_pmf, pois, poisson_hess. field; split; lra.
 Qed.
+
+Require Import NV.Base.LhCombinators.
+Lemma poisson_instance x : 0 < x ->
+  factored R Rmult Rmult (fun v => (Derive poisson_t x) ^ 2 * v) (fun w => Derive poisson_t x * w) (fun v => Derive poisson_t x * v).
+Proof. intros Hx. split; intros; ring. Qed.
